@@ -91,8 +91,8 @@ theorem inv_end {s : St} (h : Inv s) (key : Path) (p : ProcId) (kind : Kind) (hm
     fun q => by rw [← pathOf_markRunning s key p q]; rfl
   have tr1 : (attach (markRunning s key p) key p).tree = (key, p) :: s.tree := by
     show (key, p) :: (markRunning s key p).tree = _; rw [s1tree]
-  have nm1 : (attach (markRunning s key p) key p).names = (lastName key, p) :: s.names.filter (·.1 ≠ lastName key) := by
-    show (lastName key, p) :: (markRunning s key p).names.filter _ = _; rw [markRunning_names]
+  have nm1 : (attach (markRunning s key p) key p).names = (lastName key, p) :: s.names := by
+    show (lastName key, p) :: (markRunning s key p).names = _; rw [markRunning_names]
   have keep : ∀ q, phaseOf s q = .running → phaseOf (attach (markRunning s key p) key p) q = .running := by
     intro q hq
     rw [ph1]; split
@@ -123,7 +123,7 @@ theorem inv_end {s : St} (h : Inv s) (key : Path) (p : ProcId) (kind : Kind) (hm
     by_cases e : lastName key = n
     · rw [if_pos e] at hq; injection hq with hq; subst hq
       rw [ph1, if_pos ⟨rfl, hlt⟩]
-    · rw [if_neg e, lookup_filter_ne _ _ (fun x => e x.symm)] at hq
+    · rw [if_neg e] at hq
       exact keep q (h.namesRun n q hq)
   · -- treeNames
     intro k q hq
@@ -131,7 +131,7 @@ theorem inv_end {s : St} (h : Inv s) (key : Path) (p : ProcId) (kind : Kind) (hm
     rw [nm1, lookup_cons]
     by_cases e : lastName key = lastName k
     · rw [if_pos e]; exact ⟨p, rfl⟩
-    · rw [if_neg e, lookup_filter_ne _ _ (fun x => e x.symm)]
+    · rw [if_neg e]
       by_cases ek : key = k
       · exact absurd (by rw [ek]) e
       · rw [if_neg ek] at hq
